@@ -559,16 +559,15 @@ def _short(o):
 
 def _op_recompute(op, n, obj, model, res, hist):
     r = op['r']
-    if model.table[0] == 'unknown':
+    if model.table[0] in ('unknown', 'none'):
+        # no table (what recompute_edges does before the first fit is not part of the property)
+        # or a table of unknown state after a failed / interrupted operation
         got = obj_outcome(obj.recompute_edges, r, arm=res.arm_at)
         hist.append(('recompute', 'unchecked'))
         return
-    if model.table[0] == 'none':
-        expected = ('raise', 'AttributeError', 'no table')
-    else:
-        th = model.s['threshold_kwargs']
-        expected = ref.ref_recompute(model.table[1], th, r) if isinstance(th, dict) \
-            else ('raise', 'AttributeError', '')
+    th = model.s['threshold_kwargs']
+    expected = ref.ref_recompute(model.table[1], th, r) if isinstance(th, dict) \
+        else ('raise', 'AttributeError', '')
     got = obj_outcome(obj.recompute_edges, r, arm=res.arm_at)
     if got[0] == 'interrupted':
         model.table = ('unknown',)
@@ -590,7 +589,8 @@ def _op_recompute(op, n, obj, model, res, hist):
         model.table = ('known', expected[1])
         res.fps.append(fingerprint(expected[1]))
         res.stats['recomputes_checked'] += 1
-    # a failed recomputation leaves the table as it was (rc_edges works on a copy)
+    else:
+        model.table = ('unknown',)      # nothing is demanded of a failed operation
 
 
 def _op_load(plan, op, n, obj, model, res, hist):
@@ -651,9 +651,12 @@ def _op_getattr(op, n, obj, model, res, hist):
         else:
             res.stats['getattrs_checked'] += 1
     else:
-        if val != ('raise', 'AttributeError'):
+        # a name that is not a column of the current table must not yield a value (which
+        # exception type is raised is not part of the property)
+        if val[0] != 'raise':
             res.violate('getattr-mismatch', 'unknown-name',
-                        'op %d: attribute %r should raise AttributeError, got %s' % (n, name, val[:2]))
+                        'op %d: attribute %r is not a column of the current table but access returned a value'
+                        % (n, name))
         else:
             res.stats['getattrs_checked'] += 1
 
